@@ -1124,8 +1124,14 @@ where
             Some(b'u') => {
                 if self.read.remain() < 6 {
                     return perr!(self, EofWhileParsing);
-                } else {
-                    self.read.eat(5);
+                }
+                self.read.eat(1);
+                // the four hex digits must be checked even when the string is only skipped
+                for _ in 0..4 {
+                    match self.read.next() {
+                        Some(c) if c.is_ascii_hexdigit() => {}
+                        _ => return perr!(self, InvalidUnicodeCodePoint),
+                    }
                 }
             }
             Some(c) => {
